@@ -507,24 +507,75 @@ def add_genesis(U):
     """C10: decoding a Genesis never reaches the `unreachable!()` of GenesisRaw::build (Genesis::read re-encodes what it decoded to
     compute the hash). Not under the round-trip contract: the schedule inside is validated and sorted by Schedule::new."""
     U.raw("""
-impl ProtoFmt for Schedule {               // schedule.rs: decodes through Schedule::new (validation + sorting); NOT claimed, assumed leaf
-    type Proto = proto::ValidatorSchedule;
+impl ProtoFmt for Schedule {               // used only through read_optional / Option::map in GenesisRaw (the round-trip contract is NOT claimed
+    type Proto = proto::ValidatorSchedule; // for Schedule: it holds only for values satisfying the type's invariant); see schedule_read/_build below
     uninterp spec fn enc(&self) -> proto::ValidatorSchedule;
     #[verifier::external_body] fn read(r: &Self::Proto) -> (res: Result<Self, AnyhowError>) { unimplemented!() }
     #[verifier::external_body] fn build(&self) -> (p: Self::Proto) { unimplemented!() }
 }
-""", label="leaf Schedule (assumed)", props=["C10"])
+impl Schedule {
+    // Schedule::new: contract proved in unit leader (key-sorted arrangement of exactly the validators given)
+    #[verifier::external_body]
+    pub fn new(validators: Vec<ValidatorInfo>, leader_selection: LeaderSelection) -> (r: Result<Self, AnyhowError>)
+        ensures r matches Ok(s) ==> s.wf() && s.vec@.to_multiset() == validators@.to_multiset() && s.leader_selection == leader_selection
+    { unimplemented!() }
+}
+// A1: vec.iter().enumerate().map(F).collect::<Result<Vec<_>, _>>()
+#[verifier::external_body]
+pub fn tmpl_iter_enumerate_map_collect_result<A, B, F: FnMut((usize, &A)) -> Result<B, AnyhowError>>(v: &Vec<A>, f: F) -> (r: Result<Vec<B>, AnyhowError>)
+    requires forall|i: int| 0 <= i < v@.len() ==> f.requires(((i as usize, &#[trigger] v@[i]),)),
+    ensures r matches Ok(w) ==> w@.len() == v@.len() && forall|i: int| 0 <= i < v@.len() ==> f.ensures(((i as usize, &#[trigger] v@[i]),), Ok(w@[i])),
+            r matches Err(_) ==> exists|i: int, e: AnyhowError| 0 <= i < v@.len() && #[trigger] f.ensures(((i as usize, &v@[i]),), Err(e)),
+{ unimplemented!() }
+""", label="Schedule: ProtoFmt stub, Schedule::new stub, template", props=["C10", "C09"])
+    # Schedule's own read/build, as inherent functions with a CONTENT-PRESERVATION contract (weaker than the round trip):
+    # build encodes every validator of the schedule in order plus the leader selection; read decodes every entry and hands exactly those
+    # validators and that leader selection to Schedule::new
+    S = "impl ProtoFmt for Schedule"
+    U.fn(T.F_SCHED, S + " :: fn build", wrap="impl Schedule", name="schedule_build", ret="p", props=["C09"], rules_=RULES,
+         header_subs=[("Self::Proto", "proto::ValidatorSchedule")],
+         subs=[("Self::Proto {", "proto::ValidatorSchedule {   /* R-path */")],
+         chains=[dict(recv="self", methods=["iter", "map", "collect"],
+                      closures={1: dict(ty="&ValidatorInfo", ret="verif_o: proto::ValidatorInfo", spec="ensures verif_o == {p}.enc()")},
+                      template="tmpl_iter_map_collect(&self.vec, {a1}, Ghost(|x: ValidatorInfo| x.enc()))   /* Schedule::iter() is self.vec.iter() */")],
+         spec="""
+    ensures p.validators@ == seq_enc(self.vec@), p.leader_selection == Some(self.leader_selection.enc()),
+""")
+    U.fn(T.F_SCHED, S + " :: fn read", wrap="impl Schedule", name="schedule_read", ret="res", props=["C09"], rules_=RULES,
+         header_subs=[("anyhow::Result<Self>", "Result<Self, AnyhowError>"), ("Self::Proto", "proto::ValidatorSchedule")],
+         chains=[dict(recv="r\n            .validators", methods=["iter", "enumerate", "map", "collect"],
+                      closures={2: dict(ty="(usize, &proto::ValidatorInfo)", ret="verif_o: Result<ValidatorInfo, AnyhowError>",
+                                        spec="ensures forall|x: ValidatorInfo| #[trigger] x.enc() == *{p}.1 ==> verif_o == Ok::<ValidatorInfo, AnyhowError>(x)")},
+                      template="tmpl_iter_enumerate_map_collect_result(&r.validators, {a2})")],
+         post_subs=[("Self::new(validators, leader_selection)", """proof {
+            assert forall|vs: Seq<ValidatorInfo>, ls: LeaderSelection| r.validators@ == #[trigger] seq_enc(vs) && r.leader_selection == Some(#[trigger] ls.enc())
+                implies validators@ == vs && leader_selection == ls by {
+                assert forall|i: int| 0 <= i < vs.len() implies validators@[i] == vs[i] by { assert(r.validators@[i] == vs[i].enc()); }
+                assert(validators@ =~= vs);
+            }
+        }
+        Self::new(validators, leader_selection)""")],
+         spec="""
+    ensures
+        // whatever list of validators and leader selection was encoded (by schedule_build): a successful read yields a well-formed schedule
+        // holding exactly those validators (as a multiset: Schedule::new sorts by key) and that leader selection
+        forall|vs: Seq<ValidatorInfo>, ls: LeaderSelection| r.validators@ == #[trigger] seq_enc(vs) && r.leader_selection == Some(#[trigger] ls.enc())
+            ==> (res matches Ok(s) ==> s.wf() && s.vec@.to_multiset() == vs.to_multiset() && s.leader_selection == ls),
+""")
     for t in ("ProtocolVersion", "ForkNumber", "ChainId"):
         U.item(T.F_GEN, "struct " + t, props=["C10"])
     U.item(T.F_GEN, "struct GenesisRaw", props=["C10"])
     G = "impl ProtoFmt for GenesisRaw"
-    U.fn(T.F_GEN, G + " :: fn read", wrap="impl GenesisRaw", ret="res", props=["C10"], rules_=RULES,
+    U.fn(T.F_GEN, G + " :: fn read", wrap="impl GenesisRaw", ret="res", props=["C10", "C09"], rules_=RULES,
          header_subs=[("anyhow::Result<Self>", "Result<Self, AnyhowError>"), ("Self::Proto", "proto::Genesis")],
          spec="""
     // what is decoded can be re-encoded: the only supported protocol version is the one build() handles
-    ensures res matches Ok(g) ==> g.protocol_version.0 == 2,
+    ensures res matches Ok(g) ==> g.protocol_version.0 == 2
+                // field by field, what is decoded is what the message carries (C09, content preservation; the schedule inside goes through Schedule::new)
+                && r.chain_id == Some(g.chain_id.0) && r.fork_number == Some(g.fork_number.0) && r.first_block == Some(g.first_block.0)
+                && r.protocol_version == Some(g.protocol_version.0) && (r.validators_schedule.is_none() == g.validators_schedule.is_none()),
 """)
-    U.fn(T.F_GEN, G + " :: fn build", wrap="impl GenesisRaw", ret="p", props=["C10"], rules_=RULES,
+    U.fn(T.F_GEN, G + " :: fn build", wrap="impl GenesisRaw", ret="p", props=["C10", "C09"], rules_=RULES,
          header_subs=[("Self::Proto", "proto::Genesis")],
          subs=[("Self::Proto {", "proto::Genesis {   /* R-path */"),
                ("self.validators_schedule.as_ref().map(|x| x.build())",
@@ -532,6 +583,9 @@ impl ProtoFmt for Schedule {               // schedule.rs: decodes through Sched
          spec="""
     // `unreachable!()` is a proof obligation: discharged by this precondition, which read() establishes for every decoded value
     requires self.protocol_version.0 == 2,
+    ensures p.chain_id == Some(self.chain_id.0), p.fork_number == Some(self.fork_number.0), p.first_block == Some(self.first_block.0),
+            p.protocol_version == Some(self.protocol_version.0),
+            p.validators_schedule == (match self.validators_schedule { Some(s) => Some(s.enc()), None => None }),
 """)
     U.raw("""
 // Genesis::read is `Ok(GenesisRaw::read(r)?.with_hash())`, with_hash() hashes canonical(&self) = encode(self.build()): the composition
@@ -572,6 +626,7 @@ def build(repo):
          spec="""
     ensures field.is_none() ==> res == Ok::<Option<T>, AnyhowError>(None),
             forall|x: T| Some(#[trigger] x.enc()) == *field ==> res == Ok::<Option<T>, AnyhowError>(Some(x)),
+            res matches Ok(o) ==> o.is_some() == field.is_some(),      // presence is preserved
 """)
     # ---- hashes
     BYTES = [("ByteFmt::decode(required(&r.keccak256)?)?", "ByteFmt::decode(required(&r.keccak256)?.as_slice())?   /* R-std: &Vec<u8> -> &[u8] */")]
